@@ -1,8 +1,13 @@
-"""C21 — The two PDDL readers produce equivalent problems (level: translation_validation).
+"""C21 — The two PDDL readers produce equivalent problems.
 
 Payload:  (read <domain-tree> <problem-tree>)   — see lean/UPVerif/Drv/C21.lean.
-Each REAL reader (UP reader; AI-planning reader = external `pddl` parser + unified_planning/interop/from_pddl.py) is
-compared with the one reference reader `pddlRead` of the Lean model; the property's own oracle compares the two real
+Three ties on every case:
+  * the REAL first reader (UP reader, pyparsing) against the reference reader `pddlRead` (Core/PddlRead.lean);
+  * the REAL second reader (PDDLReader(force_ai_planning_reader=True): external `pddl` parser +
+    unified_planning/interop/from_pddl.py) against `fromPddl ∘ astOf` (Core/FromPddl.lean) — problems compared exactly,
+    effects in the converter's own order;
+  * the objects the REAL external parser builds (dumped below) against `astOf` — the trusted, sampled piece of the model.
+The theorems of Props/C21.lean relate the two models for all trees; the property's own oracle compares the two real
 readers behaviourally.
 """
 import glob
@@ -20,31 +25,40 @@ import sexp
 import upp
 
 ID = "C21"
-LEVEL = "translation_validation"
 GEN = []
-CORR_NAME = "each-real-reader-vs-reference-reader"
+CORR_NAME = "each-real-reader-vs-its-model+external-parser-ast"
 RULE = ("generated PDDL texts of the common fragment: the written text of generated problems (non-negative constants, every "
         "action with a :precondition, the full requirement list — what the external parser accepts) rewritten into forms the "
         "writer never emits (multi-typed lists, objects as constants, reordered :types, nested and/or, >=/>, n-ary +/*, upper "
         "case, empty preconditions, negative init literals, `- number`, untyped predicate parameters, fully untyped domains, "
-        "comments), plus the PDDL files shipped in unified_planning/test/pddl that both readers accept. Both real readers and "
-        "the reference reader run on each text; results are compared in a canonical form that sorts what the external parser "
-        "keeps in sets and flattens nested and/or/+/*. Non-trivial = both real readers accept the text and it contains a "
-        "non-writer form, a conditional/universal effect, a quantifier or a cost metric.")
+        "unary minus, comments), plus the PDDL files shipped in unified_planning/test/pddl that both readers accept. On each "
+        "text: the UP reader vs `pddlRead` (canonical form: declarations sorted, nested and/or/+/* flattened); the AI-planning "
+        "reader vs `fromPddl(astOf ..)` (exact: only what the external parser keeps in frozensets is sorted — declarations, "
+        "quantified variables — effects stay in the converter's stack order, no flattening); the dumped objects of the "
+        "external parser vs `astOf`. Non-trivial = both real readers accept the text and it contains a non-writer form, a "
+        "conditional/universal effect, a quantifier or a cost metric.")
 ASSUMPTIONS = [
     "texts the external `pddl` 0.4.10 package does not parse, or from_pddl rejects with UPUnsupportedProblemTypeError (untyped "
     "variables), are outside 'the requirements that both readers accept': only the UP reader is compared with the reference reader",
-    "no + or * with two equal operands (the external parser collapses them: finding D-C21a) and no unary minus (the AI "
-    "converter folds `(- c)` into a constant, the UP reader builds `-1 * c`: same value, different syntax)",
+    "no + or * with two equal operands (the external parser collapses them: finding D-C21a); no `()` precondition (read "
+    "as `(or)` = false by the external parser: finding D-C21b) and no two equal numeric effects in one `and` (collapsed: "
+    "finding D-C21c)",
+    "a `decrease` of total-cost under an action-cost metric is outside the common fragment (the UP reader keeps total-cost "
+    "as a fluent with a final-state metric, the converter builds negative action costs: same plan costs, different metric kind)",
     "numeric constants with at most 15 significant digits (the external parser hands over Python floats)",
     "equivalence is checked on the canonical syntax (sound: equal canonical forms denote equal problems) and, by the oracle, "
     "behaviourally: objects, initial state, bisimulation to depth 3/5 with the real simulator, goal verdicts, metric",
 ]
 MODELLED = [
-    "reference reader `pddlRead` (Lean, executable) — no theorem about pyparsing or the external `pddl` parser: every claim of "
-    "C21 is per-input translation validation",
-    "canonical form (harness): declarations sorted, nested and/or/+/* flattened and sorted, duplicate conjuncts dropped, "
-    "effect conditions simplified by the real simplifier, initial state sorted",
+    "pyparsing (first reader) and lark + the transformer of the external `pddl` package (second reader): tied by sampling "
+    "only — `pddlRead` against the real UP reader, `astOf` against a dump of the real package's objects on every input",
+    "`astOf` keeps declaration order where the package keeps frozensets (constants, predicates, actions, objects, initial "
+    "literals, quantified variables): the harness compares these sorted; numbers are exact rationals (the package hands "
+    "over floats: exact up to 15 significant digits)",
+    "type checks of the expression manager and the static effect-conflict check of add_effect/_add_effect_instance (both "
+    "models skip them; generated texts are well typed)",
+    "canonical form of the first tie (harness): declarations sorted, nested and/or/+/* flattened and sorted, duplicate "
+    "conjuncts dropped, effect conditions simplified by the real simplifier, initial state sorted",
 ]
 BUDGET_S = {"quick": 40, "thorough": 400}
 SEARCH_S = {"quick": 40, "thorough": 200}
@@ -57,6 +71,129 @@ FULLREQ = [":requirements", ":strips", ":typing", ":negative-preconditions", ":d
 # cases
 # ------------------------------------------------------------------------------------------------
 
+def _no_binary_minus(e):
+    """`(- a b)` -> `(+ a (- b))`: the LALR tables of the external parser have no binary minus"""
+    if isinstance(e, list):
+        e = [_no_binary_minus(x) for x in e]
+        if len(e) == 3 and e[0] == "-":
+            return ["+", e[1], ["-", e[2]]]
+    return e
+
+
+def _goal_ok(g):
+    """what the external parser admits in a goal (its formulas are read without any requirement): atoms, `not`, `and`,
+    numeric comparisons"""
+    if not isinstance(g, list) or not g or not isinstance(g[0], str):
+        return False
+    h = g[0].lower()
+    if h in ("or", "imply", "exists", "forall"):
+        return False
+    if h == "and":
+        return all(_goal_ok(x) for x in g[1:])
+    if h == "not":
+        return len(g) == 2 and _goal_ok(g[1])
+    if h == "=":
+        return len(g) == 3 and isinstance(g[1], list)
+    return True
+
+
+def ai_fragment(d, p):
+    """move a generated text into the fragment the external parser accepts (most generated texts leave it by a binary minus
+    or a disjunctive / quantified goal)"""
+    d = [_no_binary_minus(sec) if isinstance(sec, list) and sec and sec[0] == ":action" else sec for sec in d]
+    out = []
+    for sec in p:
+        if isinstance(sec, list) and sec and sec[0] == ":goal" and len(sec) == 2:
+            g = _no_binary_minus(sec[1])
+            if isinstance(g, list) and g and g[0] == "and":
+                g = ["and"] + [x for x in g[1:] if _goal_ok(x)]
+            elif not _goal_ok(g):
+                g = ["and"]
+            sec = [":goal", g]
+        elif isinstance(sec, list) and sec and sec[0] == ":metric":
+            sec = _no_binary_minus(sec)
+        out.append(sec)
+    return d, out
+
+
+class AiVariants(cp.Variants):
+    """variants that stay inside what the second reader accepts: every list typed, no negative initial literal"""
+
+    def hit(self, tag, p=None):
+        if tag in ("untyped", "negative-init-literal"):
+            return False
+        return super().hit(tag, p)
+
+
+# ---- shadowing: a quantified variable named like an action parameter or like an enclosing quantified variable --------------
+
+def _occurs(name, t):
+    if isinstance(t, str):
+        return t.lower() == name.lower()
+    return any(_occurs(name, x) for x in t)
+
+
+def _declared(typed):
+    """names declared by a flat typed `?`-list"""
+    out, i = [], 0
+    while i < len(typed):
+        if typed[i] == "-":
+            i += 2
+        else:
+            out.append(typed[i])
+            i += 1
+    return out
+
+
+def _rename(t, old, new):
+    """rename the variable `old` in `t`, stopping at a quantifier that declares `old` again"""
+    if isinstance(t, str):
+        return new if t.lower() == old.lower() else t
+    if len(t) == 3 and isinstance(t[0], str) and t[0].lower() in ("exists", "forall") and isinstance(t[1], list) \
+            and any(x.lower() == old.lower() for x in _declared(t[1]) if isinstance(x, str)):
+        return t
+    return [_rename(x, old, new) for x in t]
+
+
+def _shadow_tree(t, outer, rng, hits):
+    """`outer`: the names visible around `t` (action parameters, enclosing quantified variables).  Innermost first, a
+    quantified variable is renamed to a visible name that does not occur in its scope: the meaning does not change, the
+    inner binding has to win in both readers."""
+    if not isinstance(t, list):
+        return t
+    if len(t) == 3 and isinstance(t[0], str) and t[0].lower() in ("exists", "forall") and isinstance(t[1], list) \
+            and all(isinstance(x, str) for x in t[1]):
+        typed, body = list(t[1]), t[2]
+        body = _shadow_tree(body, outer + _declared(typed), rng, hits)
+        for v in _declared(typed):
+            cands = [n for n in outer if not _occurs(n, body) and n.lower() not in [x.lower() for x in _declared(typed)]]
+            if cands and rng.random() < 0.6:
+                n = rng.choice(cands)
+                typed = [n if x.lower() == v.lower() else x for x in typed]
+                body = _rename(body, v, n)
+                hits.append(n)
+        return [t[0], typed, body]
+    return [_shadow_tree(x, outer, rng, hits) for x in t]
+
+
+def shadow(d, p, rng):
+    out = []
+    for sec in d:
+        if isinstance(sec, list) and sec and sec[0] == ":action" and ":parameters" in sec:
+            params = _declared(sec[sec.index(":parameters") + 1])
+            hits = []
+            new = []
+            for i, x in enumerate(sec):
+                if i > 0 and sec[i - 1] in (":precondition", ":effect"):
+                    x = _shadow_tree(x, params, rng, hits)
+                new.append(x)
+            sec = new
+        out.append(sec)
+    hits = []
+    q = [[s[0], _shadow_tree(s[1], [], rng, hits)] if isinstance(s, list) and len(s) == 2 and s[0] == ":goal" else s for s in p]
+    return out, q
+
+
 def make_case(rng):
     try:
         ps, P, ctx = cp.gen_problem(rng, adversarial=False, nonneg=True, metrics=rng.random() < 0.6)
@@ -68,10 +205,18 @@ def make_case(rng):
             dom, prob = cp.tokenize(w.get_domain()), cp.tokenize(w.get_problem())
     except Exception:
         return None
-    v = cp.Variants(rng, p=rng.choice([0.0, 0.15, 0.3, 0.5]))
-    v.no_unary_minus = True
-    v.ai_friendly = True          # stay clear of forms the external grammar lacks: `()` preconditions, nested `and` effects
+    ai = rng.random() < 0.7
+    v = (AiVariants if ai else cp.Variants)(rng, p=rng.choice([0.0, 0.15, 0.3, 0.5]))
+    if ai:
+        v.all_untyped = False
+    v.ai_friendly = True          # stay clear of `()` preconditions (finding D-C21b) and nested `and` effects (not in the grammar)
     d2, p2 = v.domain(dom, prob)
+    if ai:
+        d2, p2 = ai_fragment(d2, p2)
+    if rng.random() < 0.6:
+        d2, p2 = shadow(d2, p2, rng)
+    d2 = [[_drop_dup_numeric_effects(x) if i > 0 and sec[i - 1] == ":effect" else x for i, x in enumerate(sec)]
+          if isinstance(sec, list) and sec and sec[0] == ":action" else sec for sec in d2]
     p2 = p2[:3] + [FULLREQ] + p2[3:]
     out = []
     for sec in d2:
@@ -104,7 +249,7 @@ def shipped_cases():
 
 
 def cases(rng, tier):
-    n = 60 if tier == "quick" else 700
+    n = 45 if tier == "quick" else 700
     for c in shipped_cases():
         yield c
     for _ in range(n):
@@ -147,6 +292,13 @@ def canon_expr(e):
                     seen.add(k)
                     uniq.append(a)
             flat = uniq
+        if h == "times" and len(flat) >= 2 and all(isinstance(a, list) and a and a[0] in ("i", "r") for a in flat):
+            # a product of constants is that constant: `(- 2.5)` is `-1 * 5/2` for the first reader, `-5/2` for the converter
+            from fractions import Fraction
+            q = Fraction(1)
+            for a in flat:
+                q *= Fraction(a[1])
+            return ["i", str(q.numerator)] if q.denominator == 1 else ["r", f"{q.numerator}/{q.denominator}"]
         flat.sort(key=sexp.dumps)
         if len(flat) == 1:
             return flat[0]
@@ -192,6 +344,133 @@ def canon_sets(ps):
 
 
 # ------------------------------------------------------------------------------------------------
+# exact canonical form of the second reader's result (compared with `fromPddl ∘ astOf`)
+# ------------------------------------------------------------------------------------------------
+
+def canon_ai(ps):
+    """Problem read by the AI-planning reader / by its model, up to what the external parser keeps in frozensets:
+    declarations sorted, quantified variables sorted, cost table sorted.  Nothing is flattened or simplified, effects stay
+    in the order the converter's stack yields them."""
+    g = lambda k: upp.get(ps, k)
+    sq = cp.sort_quant_expr
+    acts = []
+    for a in g("actions"):
+        effs = [sexp.dumps(["eff", e[1], sq(e[2]), sq(e[3]), sq(e[4]), sorted(e[5])]) for e in a[4][1:]]
+        acts.append([a[1], sexp.dumps(a[2]), [sexp.dumps(sq(x)) for x in a[3][1:]], effs])
+    acts.sort(key=lambda x: x[0])
+    ms = []
+    for m in g("metrics"):
+        if m[0] == "min-action-costs":
+            ms.append([m[0], sorted(sexp.dumps([a, sq(c)]) for a, c in m[1]), sexp.dumps(m[2])])
+        elif m[0] in ("min-final", "max-final"):
+            ms.append([m[0], sexp.dumps(sq(m[1]))])
+        else:
+            ms.append(m)
+    return ["problem", ps[1], sorted(sexp.dumps(t) for t in g("types")), sorted(sexp.dumps(o) for o in g("objects")),
+            sorted(sexp.dumps(f) for f in g("fluents")), sorted(sexp.dumps([sq(f), sq(v)]) for f, v in g("init")),
+            acts, [sexp.dumps(sq(x)) for x in g("goals")], ms]
+
+
+# ------------------------------------------------------------------------------------------------
+# dump of the objects the external `pddl` package builds (compared with `astOf`)
+# ------------------------------------------------------------------------------------------------
+
+def _ast_classes():
+    from pddl.logic import base as B, effects as E, functions as F, predicates as P, terms as T
+    ops = {B.And: "and", B.Or: "or", B.Imply: "imply", B.OneOf: "oneof", F.EqualTo: "eq", F.LesserThan: "lt",
+           F.LesserEqualThan: "le", F.GreaterThan: "gt", F.GreaterEqualThan: "ge", F.Minus: "minus", F.Plus: "plus",
+           F.Times: "times", F.Divide: "divide", F.Assign: "assign", F.Increase: "increase", F.Decrease: "decrease",
+           F.ScaleUp: "scale-up", F.ScaleDown: "scale-down"}
+    return B, E, F, P, T, ops
+
+
+def dump_term(t):
+    B, E, F, P, T, ops = _ast_classes()
+    if isinstance(t, T.Constant):
+        return ["c", str(t.name)]
+    if isinstance(t, T.Variable):
+        return ["v", str(t.name)]
+    raise ValueError(f"term {t!r}")
+
+
+def dump_tvar(v):
+    return [str(v.name)] + sorted(str(x) for x in v.type_tags)
+
+
+def dump_form(f):
+    from fractions import Fraction
+    from upx import q2s
+    B, E, F, P, T, ops = _ast_classes()
+    if isinstance(f, F.NumericValue):
+        return ["num", q2s(Fraction(str(f.value)))]
+    if type(f) in ops:
+        return ["op", ops[type(f)]] + [dump_form(x) for x in f.operands]
+    if isinstance(f, B.Not):
+        return ["not", dump_form(f.argument)]
+    if isinstance(f, P.Predicate):
+        return ["pred", str(f.name)] + [dump_term(t) for t in f.terms]
+    if isinstance(f, F.NumericFunction):
+        return ["fn", str(f.name)] + [dump_term(t) for t in f.terms]
+    if isinstance(f, P.EqualTo):
+        return ["eqt", dump_term(f.left), dump_term(f.right)]
+    if isinstance(f, B.ForallCondition):
+        return ["forall", sorted(dump_tvar(v) for v in f.variables), dump_form(f.condition)]
+    if isinstance(f, B.ExistsCondition):
+        return ["exists", sorted(dump_tvar(v) for v in f.variables), dump_form(f.condition)]
+    if isinstance(f, E.When):
+        return ["when", dump_form(f.condition), dump_form(f.effect)]
+    if isinstance(f, E.Forall):
+        return ["forall-eff", sorted(dump_tvar(v) for v in f.variables), dump_form(f.effect)]
+    raise ValueError(f"formula {type(f).__name__}")
+
+
+def _sorted(xs):
+    return sorted(xs, key=sexp.dumps)
+
+
+def dump_ast(D, Q):
+    """canonical dump of pddl.core.Domain / Problem: everything the package keeps in a set or dict is sorted"""
+    opt = lambda x: "_" if x is None else str(x)
+    dom = ["domain", str(D.name), ["reqs"] + sorted(r.value for r in D.requirements),
+           ["types"] + _sorted([str(k), opt(v)] for k, v in D.types.items()),
+           ["constants"] + _sorted([str(c.name), opt(c.type_tag)] for c in D.constants),
+           ["predicates"] + _sorted([str(p.name)] + [dump_tvar(v) for v in p.terms] for p in D.predicates),
+           ["functions"] + _sorted([str(f.name)] + [dump_tvar(v) for v in f.terms] for f in D.functions),
+           ["actions"] + _sorted(["action", str(a.name), [dump_tvar(v) for v in a.parameters],
+                                  "_" if a.precondition is None else dump_form(a.precondition),
+                                  "_" if a.effect is None else dump_form(a.effect)] for a in D.actions)]
+    if D.derived_predicates:
+        raise ValueError("derived predicates")
+    reqs = Q._requirements
+    prob = ["problem", str(Q.name), str(Q.domain_name), "_" if reqs is None else ["reqs"] + sorted(r.value for r in reqs),
+            ["objects"] + _sorted([str(c.name), opt(c.type_tag)] for c in Q.objects),
+            ["init"] + _sorted(dump_form(f) for f in Q.init), dump_form(Q.goal),
+            "_" if Q.metric is None else ["metric", str(Q.metric.optimization), dump_form(Q.metric.expression)]]
+    return ["ok", dom, prob]
+
+
+def canon_model_ast(m):
+    """the same canonical order on the model's dump (which lists declarations in text order)"""
+    if not (isinstance(m, list) and m and m[0] == "ok"):
+        return m
+
+    def form(f):
+        if isinstance(f, list) and f and f[0] in ("forall", "exists", "forall-eff") and len(f) == 3:
+            return [f[0], sorted(f[1]), form(f[2])]
+        if isinstance(f, list):
+            return [form(x) for x in f]
+        return f
+
+    def sec(x):
+        if isinstance(x, list) and x and x[0] == "reqs":
+            return ["reqs"] + sorted(set(x[1:]))
+        if isinstance(x, list) and x and x[0] in ("types", "constants", "predicates", "functions", "actions", "objects", "init"):
+            return [x[0]] + _sorted(form(y) for y in x[1:])
+        return form(x)
+    return ["ok", [sec(x) for x in m[1]], [sec(x) for x in m[2]]]
+
+
+# ------------------------------------------------------------------------------------------------
 # real code
 # ------------------------------------------------------------------------------------------------
 
@@ -200,12 +479,46 @@ def texts(payload):
     return cp.render_text(rng, payload[1]), cp.render_text(rng, payload[2])
 
 
+def parse_external(dom, prob):
+    """the two calls of PDDLReader(force_ai_planning_reader=True) into the external package (pddl_reader.py:135):
+    returns (Domain, Problem) or None when the package does not accept the (lower-cased) text"""
+    from pddl.parser.domain import DomainParser
+    from pddl.parser.problem import ProblemParser
+    try:
+        return DomainParser()(dom.lower()), ProblemParser()(prob.lower())
+    except Exception:
+        return None
+
+
+_AI = {}
+
+
+def ai_read_cached(dom, prob):
+    """(problem read by PDDLReader(force_ai_planning_reader=True) | None, error | None, (Domain, Problem) of the external
+    parser | None), memoised over the last few texts: impl() and oracle() of one case read the same text, and building one
+    pair of lark parsers costs ~0.13 s.  A text the external package does not parse is 'skip' (as in cp.read_back)."""
+    key = (dom, prob)
+    if key not in _AI:
+        if len(_AI) > 6:
+            _AI.clear()
+        DQ = parse_external(dom, prob)
+        if DQ is None:
+            res = (None, "skip", None)
+        else:
+            try:
+                res = (cp.reader("ai").parse_problem_string(dom, prob), None, DQ)
+            except Exception as e:
+                res = (None, f"{type(e).__name__}: {str(e)[:160]}", DQ)
+        _AI[key] = res
+    return _AI[key]
+
+
 def read_both(payload):
     dom, prob = texts(payload)
     U, eu = cp.read_back(dom, prob, "up")
-    A, ea = cp.read_back(dom, prob, "ai")
+    A, ea, _ = ai_read_cached(dom, prob)
     if A is None and ea != "skip" and ea.startswith("UPUnsupportedProblemTypeError"):
-        ea = "skip"        # documented refusal of the converter: the text is not accepted by that reader
+        ea = "refused"     # documented refusal of the converter: the text is not accepted by that reader
     return U, eu, A, ea
 
 
@@ -216,33 +529,72 @@ def impl(payload):
     except Exception as e:
         u = ["unencodable", type(e).__name__]
     if A is None:
-        a = "skip" if ea == "skip" else ["ai-error", ea[:80]]
+        a = ea if ea in ("skip", "refused") else ["ai-error", ea[:80]]
     else:
         try:
-            a = canon_sets(upp.enc_problem(A))
+            a = canon_ai(upp.enc_problem(A))
         except Exception as e:
             a = ["unencodable", type(e).__name__]
-    return ["readers", u, a]
+    dom, prob = texts(payload)
+    DQ = ai_read_cached(dom, prob)[2]
+    if DQ is None:
+        ast = "none"
+    else:
+        try:
+            ast = dump_ast(*DQ)
+        except ValueError as e:
+            ast = ["undumpable", str(e)[:60]]
+    return ["readers", u, a, ast]
 
 
 def compare(m, a):
-    """reference reader vs each real reader"""
-    if not (isinstance(a, list) and a and a[0] == "readers"):
+    """the three ties: UP reader vs `pddlRead`, AI-planning reader vs `fromPddl ∘ astOf`, external parser vs `astOf`"""
+    if not (isinstance(a, list) and a and a[0] == "readers" and isinstance(m, list) and len(m) == 4 and m[0] == "model"):
         return False
-    u, ai = a[1], a[2]
+    u, ai, ast = a[1], a[2], a[3]
+    mu, mai, mast = m[1], m[2], m[3]
     if isinstance(u, list) and u and u[0] == "unencodable":
         return True          # outside the wire format (temporal / hierarchical shipped files): nothing to compare
-    if m == "error":
-        return u == "error" and (ai == "skip" or (isinstance(ai, list) and ai[0] == "ai-error"))
-    if not (isinstance(m, list) and m and m[0] == "ok"):
+    # 1. first reader
+    if mu == "error":
+        if u != "error":
+            return False
+    else:
+        if not (isinstance(mu, list) and mu and mu[0] == "ok"):
+            return False
+        try:
+            if canon_sets(mu[1]) != u:
+                return False
+        except Exception:
+            return False
+    # 3. external parser (the trusted piece of the model); a text outside the first reader's fragment is outside the
+    #    common fragment: there the model of the parser may answer `none`
+    if isinstance(ast, list) and ast and ast[0] == "undumpable":
+        pass
+    elif ast == "none":
+        if mast != "none":
+            return False
+    else:
+        if mast == "none":
+            if mu != "error":
+                return False
+        elif canon_model_ast(mast) != ast:
+            return False
+    # 2. second reader
+    if ai == "skip":
+        return mai == "error"
+    if ai == "refused" or (isinstance(ai, list) and ai and ai[0] == "ai-error"):
+        return mai == "error" or (mast == "none" and mu == "error")
+    if isinstance(ai, list) and ai and ai[0] == "unencodable":
+        return True
+    if mast == "none" and mu == "error":
+        return True           # accepted by the second reader only: not in the common fragment, not modelled
+    if not (isinstance(mai, list) and mai and mai[0] == "ok"):
         return False
     try:
-        cm = canon_sets(m[1])
+        return canon_ai(mai[1]) == ai
     except Exception:
         return False
-    if cm != u:
-        return False
-    return ai == "skip" or cm == ai
 
 
 def _features(payload):
@@ -264,6 +616,25 @@ def _features(payload):
                 walk(x)
     walk(payload[1])
     walk(payload[2])
+
+    def shadows(t, outer):
+        """a quantified variable re-uses a visible name (action parameter / enclosing quantified variable)"""
+        if not isinstance(t, list):
+            return
+        if len(t) == 3 and isinstance(t[0], str) and t[0].lower() in ("exists", "forall") and isinstance(t[1], list) \
+                and all(isinstance(x, str) for x in t[1]):
+            here = [x.lower() for x in _declared(t[1])]
+            if any(x in outer for x in here):
+                tags.add("shadowed-variable")
+            shadows(t[2], outer + here)
+            return
+        for x in t:
+            shadows(x, outer)
+    for sec in payload[1]:
+        if isinstance(sec, list) and sec and sec[0] == ":action" and ":parameters" in sec \
+                and isinstance(sec[sec.index(":parameters") + 1], list):
+            ps = [x.lower() for x in _declared(sec[sec.index(":parameters") + 1]) if isinstance(x, str)]
+            shadows(sec, ps)
     return sorted(tags)
 
 
@@ -279,6 +650,7 @@ def stats(payload, ans):
         out.append("ai:" + ("ok" if isinstance(ans[2], list) and ans[2][0] == "problem" else str(ans[2] if isinstance(ans[2], str) else ans[2][0])))
         if isinstance(ans[2], list) and ans[2][0] == "problem":
             out += ["both:" + t for t in _features(payload)]
+        out.append("ast:" + ("dumped" if isinstance(ans[3], list) and ans[3][0] == "ok" else str(ans[3] if isinstance(ans[3], str) else ans[3][0])))
     return out
 
 
@@ -306,7 +678,7 @@ def metric_key(P):
 def oracle(payload):
     U, eu, A, ea = read_both(payload)
     if U is None or A is None:
-        if A is None and ea != "skip":
+        if A is None and ea not in ("skip", "refused"):
             return f"AI-planning reader raised inside unified_planning: {ea}"
         return None          # not accepted by both readers
     ident = lambda n: n
@@ -347,10 +719,65 @@ def _has_dup_operands(tree):
     return False
 
 
+def _numeric_effect(t):
+    return isinstance(t, list) and t and isinstance(t[0], str) and t[0].lower() in ("increase", "decrease", "assign")
+
+
+def _dup_numeric_effects(t):
+    """an effect `and` with two equal numeric effects (the external parser keeps one: D-C21c)"""
+    if not isinstance(t, list):
+        return False
+    if t and isinstance(t[0], str) and t[0].lower() == "and":
+        keys = [sexp.dumps(x).lower() for x in t[1:] if _numeric_effect(x)]
+        if len(set(keys)) != len(keys):
+            return True
+    return any(_dup_numeric_effects(x) for x in t)
+
+
+def _effects_of(dom):
+    for sec in dom:
+        if isinstance(sec, list) and sec and sec[0] == ":action":
+            for i, x in enumerate(sec):
+                if i > 0 and sec[i - 1] == ":effect":
+                    yield x
+
+
+def _empty_precondition(dom):
+    """`:precondition ()` (read as `(or)` by the external parser: D-C21b)"""
+    for sec in dom:
+        if isinstance(sec, list) and sec and sec[0] == ":action":
+            for i, x in enumerate(sec):
+                if i > 0 and sec[i - 1] == ":precondition" and x == []:
+                    return True
+    return False
+
+
 def known_cause(payload):
     if _has_dup_operands(payload[1]) or _has_dup_operands(payload[2]):
         return "D-C21a"
+    if _empty_precondition(payload[1]):
+        return "D-C21b"
+    if any(_dup_numeric_effects(e) for e in _effects_of(payload[1])):
+        return "D-C21c"
     return None
+
+
+def _drop_dup_numeric_effects(t):
+    """generated texts stay clear of finding D-C21c: a repeated numeric effect of one `and` is written once"""
+    if not isinstance(t, list):
+        return t
+    t = [_drop_dup_numeric_effects(x) for x in t]
+    if t and isinstance(t[0], str) and t[0].lower() == "and":
+        seen, out = set(), [t[0]]
+        for x in t[1:]:
+            if _numeric_effect(x):
+                k = sexp.dumps(x).lower()
+                if k in seen:
+                    continue
+                seen.add(k)
+            out.append(x)
+        return out
+    return t
 
 
 def shrink(payload):
@@ -367,13 +794,28 @@ def shrink(payload):
 
 
 MANIFEST = {
-    "level_text": ("Translation validation: on every generated PDDL text of the common fragment (and on the shipped PDDL files both "
-                   "readers accept) the UP reader and the AI-planning reader are each compared, in an order-free canonical form, "
-                   "with one executable reference reader (Lean `pddlRead`, a function of the two token trees), and with each other "
-                   "behaviourally (objects, initial state, bisimulation, goals, metric) by the property oracle. No theorem about "
-                   "either parser is claimed."),
-    "level_note": ("Per-input validation only. Trusted: the tokenizer and canonical form of the harness, the Lean driver. "
-                   "The external `pddl` package is exercised as is; finding D-C21a documents its collapse of equal operands."),
-    "technique": "translation validation against an executable reference reader (Lean) + behavioural differential oracle",
+    "level_text": ("Proof (partial). Lean models of both readers on the token trees of the two files: `pddlRead` (first reader) and "
+                   "`aiRead = fromPddl . astOf` (second reader: `fromPddl` mirrors unified_planning/interop/from_pddl.py function by "
+                   "function, `astOf` states what the external `pddl` parser builds). Theorems, by structural induction on the trees "
+                   "(no size bound): on every numeric expression, condition, effect and whole `(:action ...)` form that both models "
+                   "accept, the two results are related - same free variables, same value / truth value under every instantiation "
+                   "in every well-typed state (`C21_numeric_expressions`, `C21_conditions`), the same effects up to order "
+                   "(`C21_effects`), same name, parameters, related precondition and effects (`C21_actions`) - and related actions "
+                   "have the same successor in the sense of C01 (`C21_related_actions_same_successor`). For every PAIR OF FILES "
+                   "both models accept (`C21_readers_equivalent_partial`): same name, fluents, objects and initial values, related "
+                   "goal, pairwise related actions, related metric. Decidable side conditions (`filesOKb`) exclude exactly three "
+                   "behaviours of the external parser (findings D-C21a/b/c), each refuted on a witness, and verbatim repetitions "
+                   "that the parser's sets drop. Partial: files with a function called `total-cost` (the action-cost bookkeeping is "
+                   "proved per action, not assembled) and the user-type hierarchy are outside the whole-problem theorem "
+                   "(`C21_readers_equivalent_full` states what is missing); the parsers themselves (pyparsing, lark) are tied by sampling: on "
+                   "every generated text the real first reader is compared with `pddlRead`, the real second reader with `aiRead` "
+                   "(exactly, effects in the converter's own order), and a dump of the real package's objects with `astOf`; the "
+                   "property oracle compares the two real readers behaviourally."),
+    "level_note": ("Trusted: `astOf` (the model of the external parser: ~250 lines, validated against the real package on every "
+                   "run), the tokenizer and canonical forms of the harness, the Lean driver. The instantiation used in the semantic "
+                   "theorems is the structural one; it coincides with the simulator's substitution on manager-built expressions "
+                   "(not proved). Type checks of the expression manager and static effect-conflict checks are in neither model."),
+    "technique": ("machine-checked simulation proof between two executable reader models (Lean 4) + differential correspondence of "
+                  "each model with its real reader and of the parser model with the real parser's objects + behavioural oracle"),
     "design_ref": "DESIGN.md §5 C18/C19/C21",
 }
